@@ -6,6 +6,7 @@ from verif import Broken, log
 
 FAMILIES = {}
 PROPS = {}
+ALSO = {}      # property -> additional families whose traces also judge it
 
 
 def family(name):
@@ -77,6 +78,20 @@ def check(pid, tier):
     res = run_family(P["family"], tier)
     lines = verif.read_lines(res["trace"]) if res.get("trace") else []
     viols = [v for v in res["viols"] if v["property"] == pid]
+    extra_notes = []
+    for fam2 in ALSO.get(pid, []):       # the same property observed through another pipeline
+        res2 = run_family(fam2, tier)
+        lines2 = verif.read_lines(res2["trace"])
+        off = len(lines)
+        lines = lines + lines2
+        for v in res2["viols"]:
+            if v["property"] == pid:
+                v = dict(v); v["line"] = v.get("line", 0) + off
+                viols.append(v)
+        extra_notes.append("%s: %s" % (fam2, res2.get("notes", "")))
+        res = dict(res); res["states"] = res.get("states", 0) + res2.get("states", 0)
+        res["transitions"] = res.get("transitions", 0) + res2.get("transitions", 0)
+        res["configs"] = res.get("configs", []) + res2.get("configs", [])
     cov = {
         "states": max(1, res.get("states", 0)), "transitions": max(1, res.get("transitions", 0)),
         "traces_validated_against_impl": res.get("traces", {}).get(pid, res.get("traces", {}).get("*", 0)),
@@ -88,6 +103,8 @@ def check(pid, tier):
     for k in ("actions_covered", "notes"):
         if k in res:
             cov[k] = res[k]
+    if extra_notes:
+        cov["also_observed_through"] = extra_notes
     if pid in res.get("nontrivial", {}):
         cov["distinct_nontrivial"] = res["nontrivial"][pid]
         cov["evaluations"] = cov["traces_validated_against_impl"]
@@ -225,3 +242,38 @@ prop("C08", "cpumem_hist", "TLC-generated + random histories of alloc/rollback/r
 prop("C15", "cpumem_hist", "TLC-enumerated drift patterns (per-core usage, memory, NUMA memory) x recorded workload sets placed by the real allocator; repair then re-check; non-trivial = a drift case", _A_CH)
 prop("C32", "cpumem_hist", "remap after every prefix of the histories; result compared with the free-shared-core rule; non-trivial = a remap call", _A_CH)
 prop("C33", "cpumem_hist", "every keep-bind realloc with zero CPU delta (kinds keep, mem+, mem-) in the histories; non-trivial = such a realloc", _A_CH)
+
+
+# =========================================================================== Merge: C09 (+ manager total for C07)
+@family("merge")
+def fam_merge(tier, base):
+    cfgs = ["MC_Merge_p1.cfg", "MC_Merge_p2.cfg", "MC_Merge_p3n1.cfg"] if tier == "quick" else ["MC_Merge_p1.cfg", "MC_Merge_p2.cfg", "MC_Merge_p3n1t.cfg", "MC_Merge_p3n2.cfg"]
+    inputs, trace = base + ".in.ndjson", base + ".trace.ndjson"
+    states = gen = n = 0
+    with open(inputs, "w") as f:
+        for cfg in cfgs:
+            r = verif.model_check("MC_Merge", cfg, timeout=3000)
+            states += r.distinct
+            gen += r.generated
+            seen = set()
+            for s in r.tagged("INPUT"):
+                if s not in seen:
+                    seen.add(s)
+                    f.write(s + "\n")
+                    n += 1
+    b = verif.build_driver("pure")
+    verif.run_driver(b, "TestMergeReplay", env={"VERIF_INPUTS": inputs, "VERIF_TRACE": trace, "VERIF_REPS": 2 if tier == "quick" else 4}, timeout=7000)
+    os.remove(inputs)
+    viols, tr = verif.validate_trace("Trace_Merge", "Trace_Merge.cfg", trace, chunk=100000)
+    lines = verif.read_lines(trace)
+    multi = sum(1 for ln in lines if '"order":[1]' not in ln)
+    return dict(trace=trace, viols=viols, states=states, transitions=gen, configs=cfgs + ["Trace_Merge.cfg"],
+                traces={"*": len(lines)}, samples={"*": verif.samples_from(lines, 3)}, nontrivial={"C09": multi},
+                notes="%d TLC-enumerated answer sets x every registration order x repetitions through the real cobalt.Manager with scripted plugins; design check FoldOrderFree on every input" % n)
+
+
+_A_MG = ["plugins are scripted fakes implementing plugins.Plugin (only GetNodesDeployCapacity/Name are called); the manager is the real cobalt.Manager",
+         "usage/rate dyadic (k/4); weighted averages compared as exact fractions with a 1e-6 rounding tolerance", "weights positive"]
+prop("C09", "merge", "every answer set of 1-3 plugins over 1-2 nodes (offered or not, cap in {1,2,unlimited}, weights {1,2,100}, usage/rate) in every registration order, repeated (map order); non-trivial = more than one plugin", _A_MG)
+
+ALSO["C07"] = ["merge"]
